@@ -100,14 +100,16 @@ pub enum Op {
     Decor { step: usize, decor: String },
     RspVer { step: usize },
     ToggleInc { src: usize, inc: String },
+    /// replace the include list of a source
+    SetIncs { src: usize, incs: Vec<String> },
     DelSrc { src: usize },
     RestoreSrc { src: usize },
     /// meaning-preserving: new statement order and new spelling
     Respell { spell: u64, order_seed: u64 },
     AddStep { step: Step, pos: usize },
     RemoveStep { step: usize },
-    /// move the last output of `from` to step `to`
-    MoveOut { from: usize, to: usize },
+    /// move output number `idx` (modulo the implicit outputs) of `from` to step `to`
+    MoveOut { from: usize, to: usize, #[serde(default)] idx: usize },
     /// add an output to a step
     AddOut { step: usize, name: String },
     SetPoolDepth { pool: usize, depth: usize },
@@ -275,6 +277,9 @@ impl Profile {
                 f.cycle_pct = 0;
                 f.nopool_pct = 0;
             }
+            "C08big" => {
+                f.name = "C08big";
+            }
             "C09" => {
                 f.name = "C09";
                 f.dep_pct = 95;
@@ -380,6 +385,7 @@ pub fn gen_project(r: &mut Rng, pf: &Profile) -> Project {
             soft: r.pct(30),
             exists: true,
             tag: String::new(),
+            mg: r.pct(40),
         });
     }
     for i in 0..nsrc {
@@ -517,6 +523,33 @@ pub fn gen_project(r: &mut Rng, pf: &Profile) -> Project {
         }
         steps[k].hide_success = r.pct(8);
     }
+    // generated-header pattern: a dedicated source of step k includes an output of an
+    // earlier step; k orders itself after the producer through an order-only input
+    for k in 1..n {
+        if steps[k].phony || steps[k].depmode == 0 || !r.pct(30) {
+            continue;
+        }
+        let prods: Vec<usize> = (0..k).filter(|&p| !steps[p].phony).collect();
+        if prods.is_empty() {
+            continue;
+        }
+        let p = prods[r.below(prods.len())];
+        let g = steps[p].outs[r.below(steps[p].outs.len())].clone();
+        if g.contains(' ') || g.contains(':') || g.contains('$') {
+            continue; // keep depfile-safe
+        }
+        let name = format!("gsrc{}", k);
+        srcs.push(Src { name: name.clone(), ver: 0, incs: vec![g.clone()], soft: false, exists: true, tag: String::new(), mg: false });
+        if r.pct(50) {
+            steps[k].exp.push(name);
+        } else {
+            steps[k].imp.push(name);
+        }
+        let via = steps[p].outs[r.below(steps[p].outs.len())].clone();
+        if !steps[k].exp.contains(&via) && !steps[k].imp.contains(&via) && !steps[k].oo.contains(&via) {
+            steps[k].oo.push(via);
+        }
+    }
     let mut defaults = Vec::new();
     if r.pct(pf.default_pct) {
         for _ in 0..1 + r.below(2) {
@@ -617,7 +650,7 @@ pub fn apply_abstract(p: &mut Project, op: &Op) -> bool {
             false
         }
         Op::ToggleInc { src, inc } => {
-            if *src >= p.srcs.len() || p.src(inc).is_none() || &p.srcs[*src].name == inc {
+            if *src >= p.srcs.len() || p.src(inc).is_none() || &p.srcs[*src].name == inc || inc.starts_with("gsrc") {
                 return false;
             }
             // keep the include graph acyclic: only towards higher indices
@@ -629,6 +662,14 @@ pub fn apply_abstract(p: &mut Project, op: &Op) -> bool {
             } else {
                 p.srcs[*src].incs.push(inc.clone());
             }
+            p.srcs[*src].ver += 1;
+            true
+        }
+        Op::SetIncs { src, incs } => {
+            if *src >= p.srcs.len() {
+                return false;
+            }
+            p.srcs[*src].incs = incs.clone();
             p.srcs[*src].ver += 1;
             true
         }
@@ -679,7 +720,7 @@ pub fn apply_abstract(p: &mut Project, op: &Op) -> bool {
             p.steps[*step].removed = true;
             true
         }
-        Op::MoveOut { from, to } => {
+        Op::MoveOut { from, to, idx } => {
             if *from >= p.steps.len() || *to >= p.steps.len() || from == to {
                 return false;
             }
@@ -690,7 +731,9 @@ pub fn apply_abstract(p: &mut Project, op: &Op) -> bool {
             if f.outs.len() < 2 || f.outs.len() <= f.nexp {
                 return false;
             }
-            let o = p.steps[*from].outs.pop().unwrap();
+            let nexp = p.steps[*from].nexp;
+            let pos = nexp + idx % (p.steps[*from].outs.len() - nexp);
+            let o = p.steps[*from].outs.remove(pos);
             // moving must not create an ordering cycle: `to` must not depend on ... keep simple:
             // only allow when `to` does not (transitively) consume the output and vice versa
             p.steps[*to].outs.push(o.clone());
@@ -704,7 +747,7 @@ pub fn apply_abstract(p: &mut Project, op: &Op) -> bool {
                 .any(|x| x == &o);
             if cyc || self_in {
                 p.steps[*to].outs.pop();
-                p.steps[*from].outs.push(o);
+                p.steps[*from].outs.insert(pos, o);
                 return false;
             }
             true
@@ -887,7 +930,7 @@ fn gen_edit(r: &mut Rng, p: &Project, pf: &Profile, next_id: &mut usize) -> Opti
                 }
                 Op::RemoveStep { step: leafs[r.below(leafs.len())] }
             }
-            4 => Op::MoveOut { from: r.below(nsteps), to: r.below(nsteps) },
+            4 => Op::MoveOut { from: r.below(nsteps), to: r.below(nsteps), idx: r.below(4) },
             _ => {
                 let id = *next_id;
                 *next_id += 1;
@@ -956,10 +999,10 @@ fn add_generator(p: &mut Project, r: &mut Rng) {
             oo.push(outs[r.below(outs.len())].clone());
         }
     }
-    p.srcs.push(Src { name: "gen.in".into(), ver: 0, incs: vec![], soft: false, exists: true, tag: "#variant=0".into() });
+    p.srcs.push(Src { name: "gen.in".into(), ver: 0, incs: vec![], soft: false, exists: true, tag: "#variant=0".into(), mg: false });
     p.steps.push(Step {
         id,
-        outs: vec![p.manifest.clone()],
+        outs: vec![p.manifest.clone(), format!("{}.inc0", p.manifest), format!("{}.inc1", p.manifest)],
         nexp: 1,
         exp: vec!["gen.in".into()],
         imp,
@@ -969,7 +1012,7 @@ fn add_generator(p: &mut Project, r: &mut Rng) {
         salt: 0,
         decor: String::new(),
         depmode: 0,
-        restat: r.pct(20),
+        restat: r.pct(50),
         pool: None,
         rsp: None,
         hide_success: false,
@@ -982,6 +1025,9 @@ fn add_generator(p: &mut Project, r: &mut Rng) {
 }
 
 pub fn gen_scenario(seed: u64, pf: &Profile) -> Scenario {
+    if pf.name == "C08big" {
+        return crate::bigshape::gen_bigshape(seed);
+    }
     let root = Rng::new(seed);
     let mut r = root.sub(1, 1);
     let mut project = gen_project(&mut r, pf);
@@ -990,8 +1036,6 @@ pub fn gen_scenario(seed: u64, pf: &Profile) -> Scenario {
     let mut next_id = 100;
     if with_gen {
         add_generator(&mut project, &mut r);
-        // included files cannot be regenerated by a single-output generator: plain layout
-        project.spell = 0;
         variants.push(project.clone());
         let nv = 1 + r.below(3);
         for _ in 0..nv {
@@ -1004,8 +1048,8 @@ pub fn gen_scenario(seed: u64, pf: &Profile) -> Scenario {
                         Op::Salt { .. } | Op::AddStep { .. } | Op::RemoveStep { .. } | Op::MoveOut { .. } | Op::AddOut { .. } | Op::Decor { .. } | Op::RspVer { .. } | Op::SetPoolDepth { .. } => {
                             apply_abstract(&mut v, &op);
                         }
-                        Op::Respell { order_seed, .. } => {
-                            apply_abstract(&mut v, &Op::Respell { spell: 0, order_seed });
+                        Op::Respell { order_seed, spell } => {
+                            apply_abstract(&mut v, &Op::Respell { spell, order_seed });
                         }
                         _ => {}
                     }
